@@ -1,9 +1,45 @@
 import Drivers.Proto
-/-! Model driver for property C04 (stub: no model operations registered yet). -/
-open Lean Proto
+import St4sd.Model.TreeJson
+/-! Model driver for property C04 (layered resolution of a component configuration). -/
+open Lean Proto St4sd.Tree
 
 def handle (j : Json) : Except String Json := do
   let op ← getStr j "op"
-  throw s!"unknown op {op}"
+  match op with
+  | "resolve" =>
+    let d ← descOfJson (← j.getObjVal? "desc")
+    let d ← match j.getObjVal? "user" with
+      | .ok Json.null => pure d
+      | .ok u => do pure (patchUser d (← userOfJson u) (← getNat j "nstages"))
+      | .error _ => pure d
+    let P ← getChars j "platform"
+    let i ← getNat j "stage"
+    let n ← getChars j "name"
+    let prim ← getBool j "prim"
+    let fuel ← getNat j "fuel"
+    let vars := match findComp d.comps i n with
+      | some c => jsonOfVal (.dict (varsOf d P c))
+      | none => Json.null
+    let layered := match findComp d.comps i n with
+      | some c => jsonOfResult (layerAll (.dict []) (layers d P c))
+      | none => Json.null
+    return jobj [("result", jsonOfResult (resolve d P i n prim fuel)), ("vars", vars), ("layered", layered)]
+  | "interp" =>
+    let ctx ← fieldsOfJson (← j.getObjVal? "ctx")
+    let s ← getChars j "s"
+    let prim ← getBool j "prim"
+    let fuel ← getNat j "fuel"
+    return match interp fuel ctx prim [] s with
+      | .ok r => jobj [("ok", jchars r)]
+      | .error e => jsonOfResult (.error e)
+  | "override" =>
+    let a ← valOfJson (← j.getObjVal? "old")
+    let b ← valOfJson (← j.getObjVal? "new")
+    return if clash a b then jsonOfResult (.error .typeClash) else jsonOfResult (.ok (override a b))
+  | "convert" =>
+    let v ← valOfJson (← j.getObjVal? "comp")
+    let prim ← getBool j "prim"
+    return jsonOfResult (convert prim St4sd.Gen.C04.typeTable v)
+  | _ => throw s!"unknown op {op}"
 
 def main : IO Unit := serve handle
